@@ -212,6 +212,17 @@ Proof.
   exact (extract_closed fuel root ks res H pick0 _ stS ES (extract_productive fuel root ks res B H HP)).
 Qed.
 
+(* every class mentioned by the extracted keys pumps w.r.t. the extracted keys alone *)
+Theorem extract_all_classes_pump_total fuel root ks res :
+  (forall k, In k ks -> (bk_bucket k < 4)%nat) -> Pk root ks ->
+  extract fuel root ks = Ok res ->
+  forall k c, In k res -> mentions_class c k -> pumps (map bk_key res) c.
+Proof.
+  intros B HP H.
+  destruct (run_terminates pick0 (add_ops res) _ (Nat.le_refl _)) as [stS ES].
+  exact (extract_all_classes_pump fuel root ks res H pick0 _ stS ES (extract_productive fuel root ks res B H HP)).
+Qed.
+
 Theorem extract_total_correct fuel root ks :
   (forall k, In k ks -> (bk_bucket k < 4)%nat) -> Pk root ks ->
   exists res, extract fuel root ks = Ok res /\
